@@ -647,6 +647,16 @@ Proof.
   rewrite <- hbp_ltrace_mon. apply lk_race_free.
 Qed.
 
+Lemma hbp_ptrace_spec ug p sched :
+  ps_mon (rc_prun ug p sched) = rc_run (rc_nthreads p) (hb_ptrace ug p sched)
+  /\ hb_wf (rc_nthreads p) (hb_ptrace ug p sched).
+Proof. split; [apply hbp_ptrace_mon|apply hbp_ptrace_wf]. Qed.
+
+Lemma hbp_ltrace_spec progs sched :
+  ls_mon (rc_lrun progs sched) = rc_run (length progs) (hb_ltrace progs sched)
+  /\ hb_wf (length progs) (hb_ltrace progs sched).
+Proof. split; [apply hbp_ltrace_mon|apply hbp_ltrace_wf]. Qed.
+
 (* the refuted patterns are races in the relational sense too *)
 Lemma hbp_unguarded_hb_race :
   hb_race (hb_ptrace true {| pb_ws := [7]; pb_os := [1]; pb_readers := [(1, [7])] |} [0; 1; 1]).
